@@ -1,17 +1,13 @@
 /-
-Invariant of operation sequences: a plain (non-group) value is only ever stored under a tag that
+Invariant of operation sequences: a value (plain or group) is only ever stored under a tag that
 Python's int() accepts.  Core Lean only.
 -/
 import AsyncFix.Lemmas.ContainerGroups
 namespace AsyncFix.Model.Container
 open AsyncFix.Py
 
-def Val.isGroup : Val → Bool
-  | .group _ => true
-  | _ => false
-
-/-- every tag holding a plain value (str or class object) is accepted by `int()` -/
-def PlainTagsIntLike (c : Cont) : Prop := ∀ p ∈ c, p.2.isGroup = false → intLike p.1 = true
+/-- every tag of the container is accepted by `int()` -/
+def TagsIntLike (c : Cont) : Prop := ∀ p ∈ c, intLike p.1 = true
 
 theorem mem_dictSet {β : Type} (k : Str) (v : β) (d : List (Str × β)) (p : Str × β) (h : p ∈ dictSet k v d) :
     p ∈ d ∨ p = (k, v) := by
@@ -46,12 +42,18 @@ theorem mem_dictDel {β : Type} (k : Str) (d : List (Str × β)) (p : Str × β)
       · simp [h]
       · simp [ih h]
 
-theorem step_plainTags (c : Cont) (op : Op) (h : PlainTagsIntLike c) : PlainTagsIntLike (step c op).1 := by
+theorem step_tagsIntLike (c : Cont) (op : Op) (h : TagsIntLike c) : TagsIntLike (step c op).1 := by
   rcases step_fst c op with e | e
   · rw [e]; exact h
   · revert e
     generalize (step c op).1 = c'
     intro e
+    have key : ∀ k w, intLike k = true → c' = dictSet k w c → TagsIntLike c' := by
+      intro k w hi hw p hp
+      rw [hw] at hp
+      rcases mem_dictSet _ _ _ _ hp with hp | hp
+      · exact h p hp
+      · rw [hp]; exact hi
     cases op with
     | set t v r =>
       simp only [Op.apply, set] at e
@@ -59,46 +61,32 @@ theorem step_plainTags (c : Cont) (op : Op) (h : PlainTagsIntLike c) : PlainTags
       · simp at e
       · next hi =>
         have hi' : intLike t.pyStr = true := by simpa using hi
-        have key : ∀ w, c' = dictSet t.pyStr w c → PlainTagsIntLike c' := by
-          intro w hw p hp hg
-          rw [hw] at hp
-          rcases mem_dictSet _ _ _ _ hp with hp | hp
-          · exact h p hp hg
-          · rw [hp]; exact hi'
         split at e
-        · simp only [Except.ok.injEq] at e; exact key _ e.symm
+        · simp only [Except.ok.injEq] at e; exact key _ _ hi' e.symm
         · split at e
           · simp at e
-          · simp only [Except.ok.injEq] at e; exact key _ e.symm
+          · simp only [Except.ok.injEq] at e; exact key _ _ hi' e.symm
     | del t =>
       simp only [Op.apply, delItem] at e
       split at e
       · simp only [Except.ok.injEq] at e
-        intro p hp hg
+        intro p hp
         rw [← e] at hp
-        exact h p (mem_dictDel _ _ _ hp) hg
+        exact h p (mem_dictDel _ _ _ hp)
       · simp at e
     | addGroup t g i =>
-      obtain ⟨old, gc, _, _, e'⟩ := addGroup_ok c c' t g i e
-      intro p hp hg
-      rw [e'] at hp
-      rcases mem_dictSet _ _ _ _ hp with hp | hp
-      · exact h p hp hg
-      · rw [hp] at hg; simp [Val.isGroup] at hg
+      obtain ⟨old, gc, hi, _, _, e'⟩ := addGroup_ok c c' t g i e
+      exact key _ _ hi e'
     | setGroup t gs =>
-      obtain ⟨items, _, _, e'⟩ := setGroup_ok c c' t gs e
-      intro p hp hg
-      rw [e'] at hp
-      rcases mem_dictSet _ _ _ _ hp with hp | hp
-      · exact h p hp hg
-      · rw [hp] at hg; simp [Val.isGroup] at hg
+      obtain ⟨items, hi, _, _, e'⟩ := setGroup_ok c c' t gs e
+      exact key _ _ hi e'
     | pickle =>
       simp only [Op.apply, pickleRoundtrip, Except.ok.injEq] at e
       rw [← e]; exact h
 
-theorem run_plainTags (c : Cont) (ops : List Op) (h : PlainTagsIntLike c) : PlainTagsIntLike (run c ops) := by
+theorem run_tagsIntLike (c : Cont) (ops : List Op) (h : TagsIntLike c) : TagsIntLike (run c ops) := by
   induction ops generalizing c with
   | nil => exact h
-  | cons op ops ih => exact ih _ (step_plainTags c op h)
+  | cons op ops ih => exact ih _ (step_tagsIntLike c op h)
 
 end AsyncFix.Model.Container
